@@ -59,7 +59,8 @@ impl Ctx {
 fn quick_factor(id: &str) -> f64 {
     match id {
         "C05" | "C28" | "C38" => 12.0,
-        "C03" | "C25" | "C26" | "C23" => 8.0,
+        "C03" | "C25" | "C26" | "C23" | "C29" | "C30" | "C40" | "C18" => 8.0,
+        "C27" => 15.0,
         "C24" | "C19" => 6.0,
         "C34" | "C35" => 2.0,
         "C12" => 8.0,
